@@ -806,18 +806,32 @@ def native_wrappers():
     good = _zip_bytes([("a.txt", b"hello"), ("d/", b"")])
     bomb = _zip_bytes([("a.txt", b"\0" * 200000)])
     low = zip_bomb.ZipBombLimits(max_entry_compression_ratio=2.0)
+    # round 6: every starting position class -- 0 (the falsy one), 1, inside, last byte, end of data, beyond the end -- on
+    # acceptance, rejection and a buffer that is no ZIP at all; and the outcome itself (accept returns, a bomb is answered with
+    # the zip-bomb error, whatever the position was: a wrapper that restores by swallowing would pass the position test alone)
+    from sharepoint2text.parsing.exceptions import ExtractionZipBombError
     for label, data, lim in (("accepted", good, zip_bomb.DEFAULT_ZIP_BOMB_LIMITS), ("rejected", bomb, low),
                              ("not-a-zip", b"garbage" * 10, zip_bomb.DEFAULT_ZIP_BOMB_LIMITS)):
-        bio = io.BytesIO(data)
-        bio.seek(3)
-        try:
-            zip_bomb.validate_zip_bytesio(bio, limits=lim, source="replay")
-            res = "returned"
-        except Exception as e:  # noqa
-            res = type(e).__name__
-        if bio.tell() != 3:
-            return {"target": "zip_bomb.py::validate_zip_bytesio", "inputs": {"case": label, "start_position": 3},
-                    "expected": "stream position 3 after the call", "observed": f"position {bio.tell()} after {res}"}
+        for start in (3, 0, 1, len(data) // 2, len(data) - 1, len(data), len(data) + 7):
+            bio = io.BytesIO(data)
+            bio.seek(start)
+            exc = None
+            try:
+                zip_bomb.validate_zip_bytesio(bio, limits=lim, source="replay")
+                res = "returned"
+            except Exception as e:  # noqa
+                res, exc = type(e).__name__, e
+            if bio.closed or bio.tell() != start:
+                return {"target": "zip_bomb.py::validate_zip_bytesio", "inputs": {"case": label, "start_position": start},
+                        "expected": f"stream open at position {start} after the call",
+                        "observed": ("stream closed" if bio.closed else f"position {bio.tell()}") + f" after {res}"}
+            want = {"accepted": "returned", "rejected": "ExtractionZipBombError"}.get(label)
+            if (want is not None and res != want) or (label == "not-a-zip" and (res == "returned" or isinstance(exc, ExtractionZipBombError))):
+                return {"target": "zip_bomb.py::validate_zip_bytesio", "inputs": {"case": label, "start_position": start},
+                        "expected": want or "an error that is not the zip-bomb error", "observed": res}
+            if bio.getvalue() != data:
+                return {"target": "zip_bomb.py::validate_zip_bytesio", "inputs": {"case": label, "start_position": start},
+                        "expected": "buffer content untouched", "observed": f"{len(bio.getvalue())} bytes, content changed"}
     r1 = _dirflag()
     if r1 is not None:
         return r1
